@@ -6,6 +6,8 @@ pub mod lifecycle;
 pub mod plugins;
 pub mod serde_verb_payload;
 pub mod utils;
+#[cfg(adlt_verif)]
+pub mod verif;
 
 pub fn name() -> &'static str {
     "adlt"
